@@ -12,6 +12,7 @@ import (
 	"io"
 	"os"
 	"os/exec"
+	"syscall"
 	"time"
 )
 
@@ -79,4 +80,48 @@ func RunVegetaGuarded(bin string, ops []string, stall time.Duration) (lines []st
 	}
 	cmd.Wait()
 	return lines, -1, nil
+}
+
+// SlowSink makes `path` a named pipe and drains it slowly in the background (`chunk` bytes, then a pause
+// of `delay`): a command writing its output there is a producer whose consumer falls behind. The bytes
+// arrive on the returned channel once the writer has closed the pipe — or, if nothing was ever written,
+// after `cancel` is closed.
+func SlowSink(path string, chunk int, delay time.Duration, cancel <-chan struct{}) (<-chan []byte, error) {
+	if err := syscall.Mkfifo(path, 0o600); err != nil {
+		return nil, err
+	}
+	f, err := os.OpenFile(path, os.O_RDONLY|syscall.O_NONBLOCK, 0)
+	if err != nil {
+		return nil, err
+	}
+	out := make(chan []byte, 1)
+	go func() {
+		defer f.Close()
+		var all []byte
+		buf := make([]byte, chunk)
+		saw := false
+		for {
+			n, err := f.Read(buf)
+			if n > 0 {
+				all = append(all, buf[:n]...)
+				saw = true
+				time.Sleep(delay)
+				continue
+			}
+			if err != nil && err != io.EOF {
+				break
+			}
+			if saw { // every writer has closed
+				break
+			}
+			select {
+			case <-cancel:
+				out <- all
+				return
+			case <-time.After(time.Millisecond):
+			}
+		}
+		out <- all
+	}()
+	return out, nil
 }
